@@ -66,7 +66,7 @@ METHODS = ['prims', 'echo', 'inners', 'strict', 'noargs', 'multi', 'total',
            'item2']
 KINDS = ['bitflip', 'drop', 'dup', 'swap', 'zero', 'insert', 'trailing',
          'random', 'empty', 'splice', 'splice', 'lose_block', 'charset',
-         'truncate']
+         'repeat', 'truncate']
 CHARSETS = ['latin-1', 'utf-16', 'utf-16-le', 'ascii', 'bogus-charset', '',
             'utf-8-sig', 'cp037', 'idna', 'utf_7']
 
@@ -267,6 +267,12 @@ def _draw_ops(case, data, rng):
             ops.append(['drop', pos, rng.choice((1, 1, 2, 5))])
         elif kind == 'dup':
             ops.append(['dup', pos, rng.randint(1, 12)])
+        elif kind == 'repeat':
+            # a stuck segment: 1..3 bytes delivered over and over
+            # (lengths around 10 and 20 digits are where 32 / 64 bit
+            # arithmetic in the parsers below overflows)
+            ops.append(['repeat', pos, rng.randint(1, 3), rng.choice(
+                          (2, 5, 7, 9, 10, 12, 14, 15, 16, 17, 19, 20, 40))])
         elif kind == 'swap':
             ops.append(['swap', pos, rng.randint(0, max(0, n - 1)),
                                                         rng.randint(1, 8)])
@@ -330,6 +336,9 @@ def apply_op(data, op):
     if k == 'dup':
         p = op[1] % max(1, n)
         return data[:p + op[2]] + data[p:p + op[2]] + data[p + op[2]:]
+    if k == 'repeat':
+        p = op[1] % max(1, n)
+        return data[:p] + data[p:p + op[2]] * op[3] + data[p + op[2]:]
     if k == 'swap':
         a, b = sorted((op[1] % max(1, n), op[2] % max(1, n)))
         ln = min(op[3], b - a)
